@@ -38,6 +38,8 @@ NCPU = min(16, os.cpu_count() or 4)
 SHRINK_WALL_S = 60.0
 SHRINK_WALL_TOTAL_S = 150.0
 AFTER_VIOLATION_CASES = 4000
+SCOUT_ABOVE = 20000
+SCOUT_CASES = 2000
 
 ENV = dict(os.environ)
 ENV.setdefault("CARGO_NET_OFFLINE", "true")
@@ -569,6 +571,15 @@ class Ctx:
             step = len(own) / float(AFTER_VIOLATION_CASES)
             own = [own[int(k * step)] for k in range(AFTER_VIOLATION_CASES)]
             self.cov.setdefault("reduced_after_violation", []).append(st.name)
+        elif len(own) > SCOUT_ABOVE and not os.environ.get("VP_FULL_AFTER_VIOLATION"):
+            # a large stream is scouted first: an evenly spaced sample of it (plus the corpus); if the sample already shows a
+            # disagreement or a failing case, the stream is run on the sample only — same reason as above
+            step = len(own) / float(SCOUT_CASES)
+            scout = corpus + [own[int(k * step)] for k in range(SCOUT_CASES)]
+            si, sm = self.run_both(st, scout)
+            if any((not st.compare(i, m)) or (not st.monitor(c, i, m)) for c, i, m in zip(scout, si, sm)):
+                own = scout[len(corpus):]
+                self.cov.setdefault("reduced_after_violation", []).append(st.name + " (scout)")
         cases = corpus + own
         n_corpus = len(cases) - len(own)
         t0 = time.time()
@@ -581,7 +592,8 @@ class Ctx:
             if not st.compare(i, m):
                 mism.append((c, i, m))
         info = {"stream": st.name, "cases": len(cases), "corpus_cases": n_corpus, "distinct": len(set(cases)),
-                "distinct_nontrivial": len(nontriv), "mismatches": len(mism), "exhaustive": bool(st.exhaustive),
+                "distinct_nontrivial": len(nontriv), "mismatches": len(mism),
+                "exhaustive": bool(st.exhaustive) and not any(x.split(" ")[0] == st.name for x in self.cov.get("reduced_after_violation", [])),
                 "describe": st.describe, "wall_s": round(time.time() - t0, 2),
                 "samples": [{"case": c, "impl": i, "model": m} for c, i, m in
                             [(cases[k], impl[k], model[k]) for k in _sample_idx(len(cases), 3, self.rng)]]}
@@ -755,7 +767,8 @@ def run_property(plugin, tier, seed):
         if hasattr(plugin, "custom"):
             plugin.custom(ctx)
         else:
-            for st in plugin.streams(ctx):
+            # small streams first: if one of them settles the verdict, the large ones run on a sample (see run_stream)
+            for st in sorted(plugin.streams(ctx), key=lambda x: len(x.cases)):
                 ctx.run_stream(st)
     # 4. a broken proof obligation with no failing input found
     if proof_broken and not any(k == "property-fails" for k, _, _, _ in ctx.violations):
